@@ -94,6 +94,8 @@ def main(argv=None):
 
     ok, got, want = source.check_tree_is_imported_tree()
     tree_note = f"analysed tree {want}; `import droplets` resolves to {got}"
+    import logging
+    logging.disable(logging.WARNING)
     import droplets as _d
     native = str(Path(_d.__file__).resolve().parent)
     if native != str((SRC_ROOT / "droplets").resolve()):
@@ -184,17 +186,15 @@ def main(argv=None):
                 inputs = c.realise(case, ob.get("model"))
                 rec["inputs"] = inputs
                 res = c.concrete_run(case, inputs) if inputs is not None else None
-                if res is None and hasattr(c, "search"):
-                    res = c.search(case, args.tier, seed)
-                    if res is not None:
-                        rec["inputs"] = res.get("inputs")
                 rec["native"] = res
                 reproduced = bool(res and res.get("violated"))
-                if not reproduced and hasattr(c, "search") and res is not None:
+                if not reproduced:
                     res2 = c.search(case, args.tier, seed)
                     if res2 and res2.get("violated"):
+                        rec["model_input_did_not_reproduce"] = dict(inputs=inputs, native=res)
                         rec["inputs"] = res2.get("inputs")
                         rec["native"] = res2
+                        rec["found_by"] = "bounded search over the contract's input generator"
                         reproduced = True
             except Exception:
                 rec["replay_error"] = traceback.format_exc()
